@@ -2,12 +2,14 @@ package scn
 
 import (
 	"encoding/binary"
+	"fmt"
 	"math/big"
 	"net"
 
 	cebpf "github.com/cilium/ebpf"
 	"github.com/codelaboratoryltd/bng/pkg/qos"
 	bngradius "github.com/codelaboratoryltd/bng/pkg/radius"
+	"github.com/codelaboratoryltd/bng/pkg/simrt"
 	"go.uber.org/zap"
 
 	"verif/harness/native"
@@ -26,7 +28,14 @@ import (
 
 func c19Gen(r *sim.Rand, tier string) *sim.Case {
 	cs := &sim.Case{Knobs: map[string]int64{}}
-	cs.Variant = sim.Pick(r, "random", "random", "backlogged", "backlogged", "unlimited")
+	cs.Variant = sim.Pick(r, "random", "random", "random", "backlogged", "backlogged", "backlogged", "unlimited", "ctl")
+	if cs.Variant == "ctl" {
+		// control plane only: an operator replaces a named policy while sessions are being put on it
+		cs.Knobs["nver"] = int64(r.Range(2, 5))
+		cs.Knobs["nsub"] = int64(r.Range(1, 3))
+		cs.Knobs["skipmax"] = int64(sim.Pick(r, 1, 2, 4))
+		return cs
+	}
 	// rate: log-uniform 1 kbit/s .. 100 Gbit/s plus boundary values
 	var rate int64
 	switch r.N(6) {
@@ -172,6 +181,10 @@ func c19Run(c *sim.Ctx) {
 	mgr, err := qos.VerifNewManagerWithMaps(qos.ManagerConfig{Interface: "sim0"}, pm, zap.NewNop(), egress, ingressM, stats)
 	if err != nil {
 		panic(err)
+	}
+	if cs.Variant == "ctl" {
+		c19Ctl(c, pm, mgr, egress, ingressM)
+		return
 	}
 	sub := net.IPv4(10, 7, 0, 42).To4()
 	if err := mgr.SetSubscriberQoS(&qos.SubscriberQoS{IP: sub, DownloadBPS: rate, UploadBPS: rate, BurstBytes: burst, Priority: 3, PolicyName: "p"}); err != nil {
@@ -337,6 +350,119 @@ func c19Run(c *sim.Ctx) {
 	}
 }
 
+// c19Ctl: "the policy set through the control plane is the one enforced" while the control plane
+// itself is concurrent. An operator replaces the named policy (version k -> k+1) while session
+// tasks put subscribers on that name. What the kernel maps then hold for a subscriber must be one
+// whole version - the one before or the one after the replacement - never a mixture of the two.
+func c19Ctl(c *sim.Ctx, pm *bngradius.PolicyManager, mgr *qos.Manager, egress, ingressM *cebpf.Map) {
+	cs := c.Case
+	nver, nsub := int(cs.Knob("nver", 2)), int(cs.Knob("nsub", 1))
+	if nver < 2 || nver > 8 {
+		nver = 2
+	}
+	if nsub < 1 || nsub > 4 {
+		nsub = 1
+	}
+	type enforced struct {
+		eRate, iRate   uint64
+		eBurst, iBurst uint32
+		ePrio, iPrio   uint8
+	}
+	read := func(ip net.IP) (enforced, bool) {
+		key := qos.VerifIPKey(ip)
+		var e, i qos.TokenBucket
+		if err := egress.Lookup(&key, &e); err != nil {
+			return enforced{}, false
+		}
+		if err := ingressM.Lookup(&key, &i); err != nil {
+			return enforced{}, false
+		}
+		return enforced{e.RateBPS, i.RateBPS, e.BurstBytes, i.BurstBytes, e.Priority, i.Priority}, true
+	}
+	version := func(name string, k int) *bngradius.QoSPolicy {
+		return &bngradius.QoSPolicy{Name: name, DownloadBPS: uint64(k+1) * 10_000_000, UploadBPS: uint64(k+1) * 3_000_000,
+			BurstSize: uint32(k+1) * 100_000, Priority: uint8(k % 8)}
+	}
+	// what one whole version looks like in the maps: applied alone, sequentially, to a reference subscriber
+	ref := net.IPv4(10, 7, 9, 9).To4()
+	want := make([]enforced, nver)
+	for k := 0; k < nver; k++ {
+		if err := pm.AddPolicy(version("ref", k)); err != nil {
+			c.Fail("policy", "policy/ctl/add-failed", "AddPolicy failed: %v", err)
+			return
+		}
+		if err := mgr.SetSubscriberPolicy(ref, "ref"); err != nil {
+			c.Fail("policy", "policy/ctl/set-failed", "SetSubscriberPolicy failed: %v", err)
+			return
+		}
+		w, ok := read(ref)
+		if !ok {
+			c.Fail("policy", "policy/ctl/not-installed", "SetSubscriberPolicy succeeded but the kernel maps hold no bucket")
+			return
+		}
+		want[k] = w
+	}
+	if err := pm.AddPolicy(version("gold", 0)); err != nil {
+		c.Fail("policy", "policy/ctl/add-failed", "AddPolicy failed: %v", err)
+		return
+	}
+	subs := make([]net.IP, nsub)
+	for i := range subs {
+		subs[i] = net.IPv4(10, 7, 1, byte(10+i)).To4()
+	}
+	mixed := false
+	for k := 0; k+1 < nver && !c.Failed(); k++ {
+		c.OpIdx = k
+		var tasks []*simrt.Task
+		tasks = append(tasks, c.S.Spawn("operator", nil, func() {
+			if err := pm.AddPolicy(version("gold", k+1)); err != nil {
+				c.Fail("policy", "policy/ctl/add-failed", "AddPolicy failed: %v", err)
+			}
+		}))
+		for i := range subs {
+			ip := subs[i]
+			tasks = append(tasks, c.S.Spawn(fmt.Sprintf("session%d", i), nil, func() {
+				if err := mgr.SetSubscriberPolicy(ip, "gold"); err != nil {
+					c.Fail("policy", "policy/ctl/set-failed", "SetSubscriberPolicy failed: %v", err)
+				}
+			}))
+		}
+		c.S.Join(tasks...)
+		c.OpsDone++
+		seen := map[int]bool{}
+		for i, ip := range subs {
+			got, ok := read(ip)
+			if !ok {
+				c.Fail("policy", "policy/ctl/not-installed", "subscriber %d: SetSubscriberPolicy returned but the kernel maps hold no bucket", i)
+				continue
+			}
+			switch got {
+			case want[k]:
+				seen[k] = true
+			case want[k+1]:
+				seen[k+1] = true
+			default:
+				kind := "mixture-of-two-versions"
+				for j := range want {
+					if got == want[j] {
+						kind = "other-version"
+					}
+				}
+				c.Fail("policy", "policy/ctl/"+kind, "subscriber %d was put on policy \"gold\" while it was replaced (version %d -> %d): enforced %+v is neither version (%+v / %+v)", i, k, k+1, got, want[k], want[k+1])
+			}
+		}
+		if len(seen) == 2 {
+			mixed = true
+		}
+		c.State(uint64(k)<<8 | uint64(len(seen)))
+	}
+	if mixed {
+		c.S.Probe("ctl_sessions_saw_both_versions")
+	}
+	c.S.Fault("ctl.policy-replaced-during-apply")
+	c.NonTrivial = true
+}
+
 func dirName(ingress bool) string {
 	if ingress {
 		return "ingress"
@@ -350,9 +476,10 @@ func init() {
 		Gen: c19Gen,
 		Run: c19Run,
 		Real: []string{"bpf/qos_ratelimit.c (qos_egress_prog, qos_ingress_prog, token_bucket_check) compiled natively with clang against shim helper headers",
-			"qos.Manager.SetSubscriberQoS writing the token bucket into a real kernel hash map (cilium/ebpf marshalling)", "the kernel's map implementation (bpf(2) lookup/update)"},
+			"qos.Manager.SetSubscriberQoS writing the token bucket into a real kernel hash map (cilium/ebpf marshalling)", "the kernel's map implementation (bpf(2) lookup/update)",
+			"variant ctl: radius.PolicyManager.AddPolicy and qos.Manager.SetSubscriberPolicy as concurrent tasks under the cooperative scheduler, with the field reads that fill a composite literal split by yields (instrumentation level 3)"},
 		Stub:         []string{"TC attach and __sk_buff (a 64-byte linear header below 4 GiB, skb->len set by the harness)", "bpf_ktime_get_ns (simulated kernel clock)", "in-place map value mutation (emulated by lookup + write-back after the program returns)"},
-		Rule:         "cases: one subscriber, rate 1 kbit/s-100 Gbit/s, burst 1-2^32-1, 50-2000 arrivals (sizes 1-65535, gaps 0 ns-days, kernel clock anywhere in 64 bits); variants random / always-backlogged / unlimited; in a quarter of the random egress runs the same policy is re-applied mid-run while the other direction's map refuses the write (the reference window restarts there); non-trivial = >=3 packets and both verdicts (admit and drop) occurred, or rate 0; distinct = distinct case hash",
+		Rule:         "cases: one subscriber, rate 1 kbit/s-100 Gbit/s, burst 1-2^32-1, 50-2000 arrivals (sizes 1-65535, gaps 0 ns-days, kernel clock anywhere in 64 bits); variants random / always-backlogged / unlimited; in a quarter of the random egress runs the same policy is re-applied mid-run while the other direction's map refuses the write (the reference window restarts there); one case in eight is control-plane only (variant ctl): a named policy is replaced 1-4 times while 1-3 sessions are put on it, and what the kernel maps hold for each must be one whole version, the one before or after the replacement; non-trivial = >=3 packets and both verdicts (admit and drop) occurred, or rate 0; distinct = distinct case hash",
 		QuickRuns:    5000,
 		ThoroughRuns: 400000,
 		Assumptions: []string{"one CPU runs the program on a bucket at a time (no concurrent in-kernel updates)", "native code generation instead of the BPF back end",
